@@ -181,7 +181,7 @@ def observations(lang, obs, prefix, positions, cname="base"):
                 ty = vs[0]["ty"]
                 if lang == "go" and ty.get("k") == "opt":
                     opt = True                      # a pointer payload is Go's optional idiom
-                if lang == "go" and cname == "lang_options" and ty.get("k") == "seq":
+                if lang == "go" and cname in ("lang_options", "go_noptr_mapped_container") and ty.get("k") == "seq":
                     out["payload"] = "ambiguous"    # no_pointer_slice: a slice payload is nil-able as it stands; no marker to observe
                     vs = []
                 if lang == "python" and vs[0].get("nullable"):
@@ -223,6 +223,8 @@ CONFIGS = [
                              }),
     ("mapped_container", "", {}, {l: {"type_mappings": {"Vec<u8>": n}} for l, n in (("typescript", "Uint8Array"), ("go", "Blob"), ("python", "bytes"))}),
     ("after_sibling", "", {}, None),
+    # two file-only Go options at once: slices without pointer AND a container-instance mapping
+    ("go_noptr_mapped_container", "", {}, {"go": {"no_pointer_slice": True, "type_mappings": {"Vec<u8>": "Blob"}}}),
 ]
 VECU8 = {"typescript": "Uint8Array", "go": "Blob", "python": "bytes"}
 
@@ -238,7 +240,7 @@ def run_trees(chk, cases, configs=("base",), positions=("field", "vfield", "payl
         if cname == "after_sibling":
             srcs = [source(t, da, positions, sibling=with_lengths((siblings or {}).get(rust_text(t))) or sibling_of(t)) if not mentions_ovr(t) else s0
                     for (t, da, _), s0 in zip(cases, srcs0)]
-        langs = ["swift", "kotlin"] if cname.startswith("prefixed") else ["go", "swift"] if cname == "lang_options" else ["typescript", "go", "python"] if cname == "mapped_container" else common.LANGS
+        langs = ["swift", "kotlin"] if cname.startswith("prefixed") else ["go", "swift"] if cname == "lang_options" else ["typescript", "go", "python"] if cname == "mapped_container" else ["go"] if cname == "go_noptr_mapped_container" else common.LANGS
         results = observe.generate(srcs, langs=langs, cfgs=cfgs)
         for ci, ((tree, da, bare), per, src) in enumerate(zip(cases, results, srcs)):
             for lang in langs:
@@ -269,8 +271,8 @@ def run_trees(chk, cases, configs=("base",), positions=("field", "vfield", "payl
                     opt, ty = obs[pos]
                     events.append({"lang": lang, "pos": pos, "rust": tree, "default": bool(bare) and pos in ("field", "vfield"),
                                    "optional": bool(opt), "ty": ty, "prefix": pfx, "mapping": mapping, "aliases": al,
-                                   "vecu8": VECU8[lang] if cname == "mapped_container" else "",
-                                   "noptr": cname == "lang_options" and lang == "go", "renames": RENAMES,
+                                   "vecu8": VECU8[lang] if cname in ("mapped_container", "go_noptr_mapped_container") else "",
+                                   "noptr": cname in ("lang_options", "go_noptr_mapped_container") and lang == "go", "renames": RENAMES,
                                    "fixed_lens": obs_lens(ty), "rust_lens": rust_lens(tree)})
                     meta.append((lang, cname, pos, tree, da, src, None, ci))
     return events, meta
@@ -311,7 +313,7 @@ def slice_opt(a):
     k = a.get("k")
     if k in ("opt", "undef"):
         x = slice_opt(a["e"])
-        return x if x.get("k") == "seq" else {"k": "opt", "e": x}
+        return x if x.get("k") in ("seq", "mapped") else {"k": "opt", "e": x}
     if k == "seq":
         return dict(a, e=slice_opt(a["e"]))
     if k == "map":
